@@ -3,11 +3,13 @@
    ring with involution (z * conj z plays the role of |z|^2; no order is needed for the identity).
    PARTIAL: proved are the rank caps, exactness without truncation, and the ERROR IDENTITY
      ||x - TT(x)||^2 = sum over all steps of the squares of the discarded singular values
-   for genuine SVD answers and prefix truncation.  NOT proved (kept visible below, tested
-   numerically by the side check): the two inequalities the property derives from it. *)
+   for genuine SVD answers and prefix truncation, and the SELECTION RULE: with a relative threshold an index is kept exactly
+   when s_j / s_0 > threshold, so every discarded singular value fails that test -- with the identity,
+   error^2 = sum of discarded s_j^2 <= (#discarded) (threshold s_0)^2 is elementary.  NOT formalised (the scalar structure has
+   no order; tested numerically by the side check): that last arithmetic step, s_0 <= ||x||, and the quasi-optimality bound. *)
 From Coq Require Import ZArith List Lia Arith.
 Import ListNotations.
-Require Import Ring Sums Matrix Core Chain Sweep OfFull SweepProof TensordotProof TruncProof ErrorProof.
+Require Import Ring Sums Matrix Core Chain Sweep OfFull SweepProof TensordotProof TruncProof ErrorProof SelectProof.
 Open Scope cr_scope.
 
 (* 1a. construction from a full array: every inner rank is at most max_rank *)
@@ -71,3 +73,19 @@ Example ex_err_value :
   @err2 Zring 1 [2; 2]%nat [1; 1]%nat (fun _ xs ys => exX xs ys)
        (fst (@of_full_aux Zring None (Some 1%nat) [exAns4] 1 (fun _ xs ys => exX xs ys) [2; 2]%nat [1; 1]%nat)) = 1%Z.
 Proof. vm_compute. reflexivity. Qed.
+
+(* 4. the selection rule of every rank reduction in the code base (model: Sweep.select) *)
+Theorem C04_threshold_rule (R : cring) (gt : R -> R -> bool) (a : svd_ans R) j :
+  In j (select (Some gt) None a) <-> ((j < rk a)%nat /\ gt (Sg a j) (Sg a 0%nat) = true).
+Proof. exact (select_threshold_spec gt a j). Qed.
+Print Assumptions C04_threshold_rule.
+
+Theorem C04_discarded_fails_test (R : cring) (gt : R -> R -> bool) (a : svd_ans R) j :
+  (j < rk a)%nat -> ~ In j (select (Some gt) None a) -> gt (Sg a j) (Sg a 0%nat) = false.
+Proof. exact (discarded_fails_test gt a j). Qed.
+Print Assumptions C04_discarded_fails_test.
+
+Theorem C04_kept_indices (R : cring) (thr : option (R -> R -> bool)) (maxr : option nat) (a : svd_ans R) :
+  NoDup (select thr maxr a) /\ (forall j, In j (select thr maxr a) -> (j < rk a)%nat).
+Proof. exact (select_sorted thr maxr a). Qed.
+Print Assumptions C04_kept_indices.
